@@ -115,6 +115,13 @@ func genC10Bind(p *Plan, r *RNG) {
 		s = "error"
 	}
 	l := r.PickInt([]int{0, 0, 4, 40, 400})
-	p.Ops = append(p.Ops, Op{Kind: "bindreply", At: gap(0), A: OpArgs{S: s, Len: l}})
+	o := Op{Kind: "bindreply", At: gap(0), A: OpArgs{S: s, Len: l}}
+	if r.Chance(1, 2) {
+		// the peer's first bytes come right behind the reply (same write, any segmentation) and
+		// the application reads them with a buffer of 1 byte to 4 KB
+		o.A.N = r.PickInt([]int{1, 3, 10, 100, 1000, 5000})
+		p.Cfg.Extra["read_size"] = int64(r.PickInt([]int{1, 3, 7, 64, 4096}))
+	}
+	p.Ops = append(p.Ops, o)
 	p.QuietNS = 40 * sec
 }
